@@ -96,6 +96,22 @@ Definition npm_depgraph_only (a b : list (N * sexp)) : bool :=
             | _, _ => false end) ks
   end.
 
+(* known class F-C19e: the only differing entries are specifiers for which the graph under test holds a
+   WebAssembly module and the from-scratch graph the asset-only entry of a source-phase import (an
+   earlier version of a reloaded module imported the file as a module, which upgraded the entry) *)
+Definition is_wasm_module_payload (p : sexp) : bool :=
+  match p with L [A 0; L (A 2 :: _)] => true | _ => false end.
+Definition is_asset_entry_payload (p : sexp) : bool :=
+  match p with L [A 1; A 1] => true | _ => false end.
+Definition stale_upgrade_only (a b : list (N * sexp)) : bool :=
+  match differing_keys a b with
+  | [] => false
+  | ks => forallb (fun k =>
+            match lookup k a, lookup k b with
+            | Some p, Some q => is_wasm_module_payload p && is_asset_entry_payload q
+            | _, _ => false end) ks
+  end.
+
 (* restriction of a keyed list to a set of keys *)
 Definition restrict (keys : list N) (a : list (N * sexp)) : list (N * sexp) :=
   filter (fun p => mem (fst p) keys) a.
@@ -146,6 +162,7 @@ Definition run_c19 (input : sexp) : sexp :=
                                 | 0 => forallb (fun k => mem k (differing_keys fsl' asl')) (differing_keys frl arl)
                                 | _ => true end)
                             then [of_atoms [CLASSTAG; 1904]]
+                       else if stale_upgrade_only fsl' asl' && reds_same && negb (N.eqb mode 0) then [of_atoms [CLASSTAG; 1905]]
                        else []))]
           | None => L [A 424242]
           end
